@@ -414,14 +414,14 @@ OBLIGATIONS = [
        functions=[C.SSHConnection._recv_data, C.SSHConnection._recv_packet, C.SSHConnection._finish_recv_packet],
        bounds='two consecutive messages, each one of 21 representatives of the message classes, every phase-flag combination, both roles'),
     Ob('handlers', handlers,
-       sym=dict(enc=B, canext=B, staged=B, authp=B, authc=B, final=B, svc=R(0, 2), cut=R(0, 2)),
+       sym=dict(enc=B, canext=B, staged=B, authp=B, authc=B, final=B, svc=R(0, 2), cut=R(0, 2), sentnk=B),
        shards=dict(server=[True, False], which=[0, 1, 2, 3, 4, 5, 6, 7]),
        timeout=120, thorough_timeout=300,
        functions=[C.SSHConnection._process_service_request, C.SSHConnection._process_service_accept,
                   C.SSHConnection._process_ext_info, C.SSHConnection._process_newkeys,
                   C.SSHConnection._process_userauth_request, C.SSHConnection._process_userauth_failure,
                   C.SSHConnection._process_userauth_success, C.SSHConnection._process_userauth_banner],
-       bounds='8 transport/auth message types x role x 6 state flags x service name in {userauth, connection, empty} x body {well-formed, truncated, extended}'),
+       bounds='8 transport/auth message types x role x 7 state flags (incl. own NEWKEYS sent while that of the other side is still outstanding) x service name in {userauth, connection, empty} x body {well-formed, truncated, extended}'),
     Ob('strict_kexinit', strict_kexinit,
        sym=dict(seq=R(0, 2), peer_strict=B, have_sid=B, enc=B, kexp=B),
        shards=dict(server=[True, False]),
